@@ -130,6 +130,7 @@ func selfTest(dump bool, specs []string) []string {
 	pair("MustStore", "Book.GoodMustStore", "Book.BadMustStore", func(c *rules.Ctx, fn string) { c.MustStore(fn, "Total", "sub(b.Total,n)", "every success books") })
 	pair("StoredObjectIsPassed", "GoodStoredPassed", "BadStoredPassed", func(c *rules.Ctx, fn string) { c.StoredObjectIsPassed(fn, "V", "fx.save", 0, "the modified record is saved") })
 	pair("LoopBodyStraight", "GoodStraight", "BadStraightSkip", func(c *rules.Ctx, fn string) { c.LoopBodyStraight(fn, "no element skipped") })
+	pair("CallArg/exact", "GoodExactArg", "BadExactArg", func(c *rules.Ctx, fn string) { c.CallArg(fn, "fx.save2", 0, "exact(elem(rs))", "the element is passed on unmodified") })
 
 	// the same rules through helpers that are not in the function inventory (virtual inlining)
 	pair("FailsWhen/helper", "GoodGuardViaHelper", "BadGuardViaHelper", func(c *rules.Ctx, fn string) {
